@@ -10,7 +10,7 @@
    (it would need a JSON number printing/parsing model). *)
 From Coq Require Import Sorting.Permutation.
 From Errdef Require Import Base.Str Base.Outcome Model.Core Model.Convert Model.Unmarshal Check.UM Check.C12
-  Proofs.C10Proofs Proofs.SortFields Proofs.C13Proofs Proofs.C12Proofs Model.JsonVal Proofs.ValueRoundtrip.
+  Proofs.C10Proofs Proofs.SortFields Proofs.C13Proofs Proofs.C12Proofs Model.JsonVal Model.Redoc Proofs.ValueRoundtrip Proofs.C12DocFix.
 From Coq Require Import ZArith Reals.
 From Flocq Require Import Core IEEE754.BinarySingleNaN.
 
@@ -68,6 +68,47 @@ Theorem C12_binding_fixpoint : forall reparse32 : Z -> Z,
   exists b', try_convert (FScalar t) d' = Ok (Some b') /\ bval_scalar b' = Some v.
 Proof. exact binding_fixpoint. Qed.
 Print Assumptions C12_binding_fixpoint.
+
+(* FIXPOINT, whole documents: for every configuration without a lenient default and every decoded
+   document of the domain - any depth; at every node distinct field names, every field a JSON scalar or
+   null with at most one (scalar-typed) key of its name on the resolved definition / among the custom
+   keys, bound to a value that marshals or kept unknown; every cause restored as an errdef error -
+   if Unmarshal accepts x then the restored error marshals to a document y (redoc: kind, message,
+   stack, the fields object in name order with typed values re-encoded and unknown values verbatim,
+   causes recursively), Unmarshal accepts y, and the error restored from y marshals to y again.
+   Composition of C12_binding_fixpoint over the fields of a node (C12_fields_independent, the name
+   order of C12_field_order_is_name_order) and over the cause tree.  The strconv contract on float32
+   is the explicit premise; composite field values, foreign / unknown causes and a lenient default
+   resolver (K3) are outside this theorem and decided by the run. *)
+Theorem C12_document_fixpoint : forall reparse32 : Z -> Z,
+  (forall b, is_finite (f32_of_bits b) = true ->
+     is_finite (f64_of_bits (reparse32 b)) = true /\ f64_to_f32 (f64_of_bits (reparse32 b)) = f32_of_bits b) ->
+  forall c, cfg_plain c -> forall x, ddom reparse32 c x -> forall r, unmarshal c x = UOk r ->
+  exists y r', redoc reparse32 r = Some y /\ unmarshal c y = UOk r' /\ redoc reparse32 r' = Some y.
+Proof. exact doc_fixpoint. Qed.
+Print Assumptions C12_document_fixpoint.
+
+Example C12_document_fixpoint_example : forall reparse32 : Z -> Z,
+  cfg_plain ex_c /\ ddom reparse32 ex_c ex_x /\
+  exists r, unmarshal ex_c ex_x = UOk r /\
+            redoc reparse32 r = Some (DD "top" "k1" "" [("n", ex_f3); ("z", ex_s)] [] [Some ex_inner] "").
+Proof.
+  intros reparse32. split; [left; reflexivity|]. split.
+  - unfold ex_x. cbn [ddom]. split; [repeat constructor; cbn; intuition discriminate|]. split.
+    + intros def Hd. apply ex_resolve in Hd. subst def. split; [apply ex_simple|].
+      assert (E : bindl ex_c ex_d "k1" (sort_fields [("z", ex_s); ("n", ex_f3)]) =
+                  [("n", FTyped ex_kn (BScalar {| s_id := 2; s_kind := KInt |} (SInt 3))); ("z", FUnknown ex_s)]) by (vm_compute; reflexivity).
+      rewrite E. constructor; [cbn [snd fres_ok bval_scalar]; split; [exact I|unfold redecode; discriminate]|].
+      constructor; [exact I|constructor].
+    + split; [|split; [eexists; vm_compute; reflexivity|exact I]].
+      unfold ex_inner. cbn [ddom]. split; [repeat constructor; cbn; intuition|]. split; [|exact I].
+      intros def Hd. apply ex_resolve in Hd. subst def. split.
+      * intros n v [H|[]]. apply ex_simple. right. left. exact H.
+      * assert (E : bindl ex_c ex_d "k1" (sort_fields [("n", ex_f3)]) =
+                    [("n", FTyped ex_kn (BScalar {| s_id := 2; s_kind := KInt |} (SInt 3)))]) by (vm_compute; reflexivity).
+        rewrite E. constructor; [cbn [snd fres_ok bval_scalar]; split; [exact I|unfold redecode; discriminate]|constructor].
+  - eexists. split; [vm_compute; reflexivity|]. vm_compute. reflexivity.
+Qed.
 
 (* the integer step on its own, no float32 premise: a number bound to an integer kind re-marshals
    to a number bound to the same integer *)
